@@ -56,7 +56,11 @@ def run(ctx):
 
     exhaustive = thorough
     # every query of the alphabet on a dataset
-    for b in ["m7p7", "p0p15", "p3p12", "m12m3", "m1p0", "p0p0"]:
+    q1 = ["m7p7", "p0p15", "p3p12", "m12m3", "m1p0", "p0p0"]
+    if not thorough:
+        # quick: (-7,7), (0,15) and two seed-chosen of the other four (each TLC start costs 5-15 s)
+        q1 = q1[:2] + [q1[2 + ctx.seed % 4], q1[2 + (ctx.seed + 1 + ctx.seed // 4 % 2) % 4]]
+    for b in q1:
         cfg = "C14_q1_" + b
         if thorough:
             r = gen(cfg, mode="bfs", timeout=1500)
@@ -73,19 +77,19 @@ def run(ctx):
         if thorough:
             r = gen(cfg, mode="bfs", timeout=1500)
         else:
-            r = gen(cfg, mode="simulate", num=2, depth=2, timeout=600)
-        drive(cfg, b, r)
+            r = gen(cfg, mode="simulate", num=1, depth=2, timeout=600)
+        drive(cfg, b, r, every3=40)
     # histories
     sims = [("m7p7", 60, 700), ("p0p15", 50, 500), ("p3p12", 50, 400), ("m12m3", 50, 400),
             ("m1p0", 50, 300), ("p0p0", 30, 150), ("wide", 90, 1500)]
     if not thorough:
-        # quick: the wide profile, (-7,7) and two seed-chosen others (each TLC start costs ~5 s)
+        # quick: the wide profile and two seed-chosen others (each TLC start costs 5-10 s)
         k = ctx.seed % 5
-        sims = [sims[0], sims[1 + k], sims[1 + (k + 2) % 5], sims[6]]
+        sims = [sims[0] if ctx.seed % 2 == 0 else sims[1 + (k + 2) % 5], sims[1 + k], sims[6]]
     for b, nq, nt in sims:
         cfg = "C14_sim_" + b
         r = gen(cfg, mode="simulate", num=nt if thorough else nq, depth=8, timeout=900)
-        drive(cfg, b, r, wide=(b == "wide"), onewrite=1)
+        drive(cfg, b, r, wide=(b == "wide"), onewrite=1, every3=15)
     ctx.exhaustive = exhaustive
     ctx.notes.append("thorough: exhaustive over (dataset, load path, query) for the six small bounds and over "
                      "(dataset, write) for (-1,0) and (0,0); histories and the "
